@@ -3,12 +3,19 @@ import StorageModel.C10.TreeCursorProofs
 import StorageModel.C10.ListenerProofs
 import StorageModel.C10.ListenTreeProofs3
 import StorageModel.C10.ParseProofs
+import StorageModel.C10.G4Proofs
+import StorageModel.C10.G4Complete
+import StorageModel.C10.ParseComplete
+import StorageModel.C10.BoltSortProofs
+import StorageModel.C10.Objectz
 import StorageModel.C10.TransformProofs
 import StorageModel.C10.ValidateProofs
 import StorageModel.C10.Pipeline
 import StorageModel.C10.BoltSymbols
 import StorageModel.C10.Expected
 import StorageModel.Generated.C10Sites
+import StorageModel.Generated.C10Atn
+import StorageModel.C10.LexRules
 /-
   C10 — Parsing and evaluation are total: no panics, invalid input is rejected.
 
@@ -21,50 +28,91 @@ import StorageModel.Generated.C10Sites
 namespace StorageModel.Properties.C10
 open StorageModel StorageModel.C10
 
-/-! ## 2a. the reference lexer neither skips nor alters anything -/
+/-! ## 2a. the reference lexer neither skips nor alters anything
 
-/-- **lossless lexing**: the token texts, concatenated, are the input — for every input. -/
-theorem lex_lossless (s : List Char) (ts : List Token) (h : lex s = .ok ts) :
+  The four lexer theorems are proved for EVERY rule table (`lexWith rules`; the last one for
+  every table satisfying the decidable predicate `GoodTable`) and then instantiated at `rules`,
+  the table compiled from the regenerated grammar file (`Generated.C10.g4Rules`, i.e.
+  zitiql/ZitiQl.g4 as it is now), for which `GoodTable` is established by `decide`. -/
+
+/-- the grammar file was read completely and its lexer part compiles: every reference resolves
+    (no recursion), every token has a name the model knows, and the resulting table has exactly one
+    rule per token type in ANTLR's numbering, no rule matching the empty string, and outside
+    STRING only characters of the recognised alphabet -/
+theorem lexer_table_is_good :
+    Generated.C10.g4Note = "" ∧ (G4.compileLexer Generated.C10.g4Rules).isSome = true ∧ GoodTable rules = true := by
+  decide
+
+/-- **lossless lexing**, any rule table: the token texts, concatenated, are the input. -/
+theorem lex_lossless_any (tbl : List (TK × Pat)) (s : List Char) (ts : List Token) (h : lexWith tbl s = .ok ts) :
     (ts.map (·.text)).flatten = s :=
-  (lexAux_tokenises _ _ _ _ h).flatten
+  (lexAuxWith_tokenises tbl _ _ _ _ h).flatten
 
-/-- every token is non-empty and its text is matched by the grammar rule of its kind -/
-theorem lex_tokens_match_rules (s : List Char) (ts : List Token) (h : lex s = .ok ts) : Tokenises s ts :=
-  lexAux_tokenises _ _ _ _ h
+theorem lex_lossless (s : List Char) (ts : List Token) (h : lex s = .ok ts) :
+    (ts.map (·.text)).flatten = s := lex_lossless_any rules s ts h
+
+/-- every token is non-empty and its text is matched by the grammar rule of its kind; in a good
+    table that rule is unique -/
+theorem lex_tokens_match_rules_any (tbl : List (TK × Pat)) (s : List Char) (ts : List Token)
+    (h : lexWith tbl s = .ok ts) : Tokenises tbl s ts :=
+  lexAuxWith_tokenises tbl _ _ _ _ h
+
+theorem lex_tokens_match_rules (s : List Char) (ts : List Token) (h : lex s = .ok ts) :
+    Tokenises rules s ts ∧ (∀ k p q, (k, p) ∈ rules → (k, q) ∈ rules → p = q) ∧ ∀ k, ∃ p, (k, p) ∈ rules :=
+  ⟨lex_tokens_match_rules_any rules s ts h,
+   fun _ _ _ hp hq => GoodTable.rule_unique lexer_table_is_good.2.2 hp hq,
+   GoodTable.rule_exists lexer_table_is_good.2.2⟩
 
 /-- a lexer error is reported at a position of the input where no rule matches a non-empty
     prefix (it is never an artefact of the fuel) -/
+theorem lex_error_is_real_any (tbl : List (TK × Pat)) (s : List Char) (e : Nat) (h : lexWith tbl s = .error e) :
+    ∃ pre rest, s = pre ++ rest ∧ rest ≠ [] ∧ e = pre.length ∧ ∀ kp ∈ tbl, longest kp.2 rest = none := by
+  obtain ⟨pre, rest, h1, h2, h3, h4⟩ := lexAuxWith_error tbl (s.length + 1) s 0 e (by omega) h
+  exact ⟨pre, rest, h1, h2, by omega, pickFrom_none rest tbl h4⟩
+
 theorem lex_error_is_real (s : List Char) (e : Nat) (h : lex s = .error e) :
-    ∃ pre rest, s = pre ++ rest ∧ rest ≠ [] ∧ e = pre.length ∧ pick rest = none := by
-  obtain ⟨pre, rest, h1, h2, h3, h4⟩ := lexAux_error (s.length + 1) s 0 e (by omega) h
-  exact ⟨pre, rest, h1, h2, by omega, h4⟩
+    ∃ pre rest, s = pre ++ rest ∧ rest ≠ [] ∧ e = pre.length ∧ pick rest = none ∧
+      ∀ kp ∈ rules, longest kp.2 rest = none := by
+  obtain ⟨pre, rest, h1, h2, h3, h4⟩ := lexAuxWith_error rules (s.length + 1) s 0 e (by omega) h
+  exact ⟨pre, rest, h1, h2, by omega, h4, pickFrom_none rest rules h4⟩
 
-theorem rules_alphabet_ok : ∀ kp ∈ rules, ruleAlphabetOk kp = true := by decide
+/-- **unrecognised characters are rejected**, any good table: in an accepted input, a character
+    outside the token alphabet (`@ # $ % ^ & * ; ~ { } | ?`, a back-quote, control characters,
+    non-ASCII, …) can only occur inside a string literal; anywhere else it makes the lexer fail. -/
+theorem lex_rejects_unrecognised_any (tbl : List (TK × Pat)) (hg : GoodTable tbl = true) (s : List Char)
+    (ts : List Token) (h : lexWith tbl s = .ok ts) :
+    ∀ t ∈ ts, t.kind ≠ .STRING → ∀ c ∈ t.text, recognised c = true :=
+  (lexAuxWith_tokenises tbl _ _ _ _ h).recognised hg
 
-/-- **unrecognised characters are rejected**: in an accepted input, a character outside the
-    token alphabet (`@ # $ % ^ & * ; ~ { } | ?`, a back-quote, control characters, non-ASCII, …) can only occur inside a
-    string literal; anywhere else it makes `lex` fail. -/
 theorem lex_rejects_unrecognised (s : List Char) (ts : List Token) (h : lex s = .ok ts) :
-    ∀ t ∈ ts, t.kind ≠ .STRING → ∀ c ∈ t.text, recognised c = true := by
-  have ht := lexAux_tokenises _ _ _ _ h
-  clear h
-  induction ht with
-  | nil => intro t ht; cases ht
-  | cons hmem hm _ _ _ ih =>
-    intro t ht hk c hc
-    rcases List.mem_cons.mp ht with rfl | ht'
-    · have hok := rules_alphabet_ok _ hmem
-      simp only [ruleAlphabetOk, Bool.or_eq_true, beq_iff_eq] at hok
-      rcases hok with hs | hr
-      · exact absurd hs hk
-      · split at hr
-        · next rs hrs => exact inRanges_within hr c (alpha_posRanges _ rs c hrs (hm.alpha c hc))
-        · cases hr
-    · exact ih t ht' hk c hc
+    ∀ t ∈ ts, t.kind ≠ .STRING → ∀ c ∈ t.text, recognised c = true :=
+  lex_rejects_unrecognised_any rules lexer_table_is_good.2.2 s ts h
 
 /-- non-vacuity / instances -/
 example : (match lex "a = 1 @".toList with | .error e => e == 6 | .ok _ => false) = true := by decide
 example : recognised '@' = false ∧ recognised '#' = false ∧ recognised ';' = false ∧ recognised '`' = false := by decide
+/-- a table that is not good: the token order is wrong / a rule is missing -/
+example : GoodTable (rules.drop 1) = false := by decide
+example : GoodTable ((TK.STRING, Pat.eps) :: rules.drop 1) = false := by decide
+
+/-! ## 2a'. the generated Go lexer and parser were generated from this grammar file -/
+
+/-- the `serializedATN` of zitiql_lexer.go, decoded by the extractor, has — rule by rule — exactly
+    the transition labels the grammar file's lexer rules give (after ANTLR's set merging), the rule
+    names (fragments included) in file order, the token numbering and the literal / symbolic name
+    tables of the grammar file -/
+theorem lexer_atn_matches_grammar : G4.lexerAtnOk Generated.C10.g4Rules Generated.C10.lexerAtn = true := by decide
+
+/-- the same for zitiql_parser.go: rule names in file order, `boolExpr` the only precedence
+    (left-recursive) rule with predicates `6 >= _p` (and) / `5 >= _p` (or) and the `not` operand
+    called at precedence 1, per rule the token / rule-call labels of the grammar file's parser rules -/
+theorem parser_atn_matches_grammar : G4.parserAtnOk Generated.C10.g4Rules Generated.C10.parserAtn = true := by decide
+
+/-- the generated files are the pinned ones (SHA-256 of zitiql_lexer.go / zitiql_parser.go, SHA-256
+    over the serializedATN integers, their number, number of states and decisions): a regenerated or
+    hand-edited lexer or parser breaks this obligation -/
+theorem generated_code_is_pinned :
+    atnPins Generated.C10.lexerAtn Generated.C10.parserAtn = expectedAtnPins := by decide
 
 /-! ## 0. the regenerated facts are the ones the model was written against -/
 
@@ -78,6 +126,10 @@ theorem sites_are_expected : Generated.C10.partialSites = expectedSites := by de
 
 /-- zitiql.parse attaches the collecting error listener to BOTH lexer and parser -/
 theorem wiring_is_expected : Generated.C10.wiring = expectedWiring := by decide
+
+/-- the pooled parser's error listeners are removed before use on every path (debug or not) and
+    again, deferred, after use -/
+theorem pool_wiring_is_expected : Generated.C10.wiringPool = expectedWiringPool := by decide
 
 /-- the callbacks ToBoltListener defines are the cases of the model's `step` -/
 theorem callbacks_are_expected : Generated.C10.listenerCallbacks = expectedCallbacks := by decide
@@ -120,7 +172,7 @@ theorem parse_sound (ts : List Token) (t : StartTree) (h : parseStart ts = some 
     the lexer rules, and these tokens are the frontier of a derivation of the grammar.  So text
     that is not a sentence — in particular text with a character no token admits — is rejected. -/
 theorem accepts_sound (s : List Char) (h : accepts s = true) :
-    ∃ (ts : List Token) (t : StartTree), Tokenises s ts ∧ (ts.map (·.text)).flatten = s ∧ t.yield = ts ∧ t.wf = true := by
+    ∃ (ts : List Token) (t : StartTree), Tokenises rules s ts ∧ (ts.map (·.text)).flatten = s ∧ t.yield = ts ∧ t.wf = true := by
   unfold accepts at h
   cases hl : lex s with
   | error e => simp [hl] at h
@@ -129,21 +181,21 @@ theorem accepts_sound (s : List Char) (h : accepts s = true) :
     cases hp : parseStart ts with
     | none => simp [hp] at h
     | some t =>
-      have ht := lexAux_tokenises _ _ _ _ hl
+      have ht := lexAuxWith_tokenises rules _ _ _ _ hl
       exact ⟨ts, t, ht, ht.flatten, (parseStart_sound ts t hp).1, (parseStart_sound ts t hp).2⟩
 
-/-- the full statement of the recogniser's correctness: accepted exactly the sentences.  Only
-    the direction `accepts → sentence` (`accepts_sound`, i.e. every non-sentence is rejected — the
-    direction the property needs) is proved; the converse (the deterministic descent with its fuel
-    finds a derivation whenever one exists) is validated on every run against the generated ANTLR
-    parser (accept/reject compared on every input), not proved. -/
-def accepts_iff_fullStatement : Prop :=
-  ∀ s : List Char, accepts s = true ↔
-    ∃ (ts : List Token) (t : StartTree), lex s = .ok ts ∧ t.yield = ts ∧ t.wf = true
+/-- the parser rules of the regenerated grammar file are the ones the derivation trees, `wf` and
+    the recogniser were written against -/
+theorem parser_rules_are_expected : G4.parserRules Generated.C10.g4Rules = expectedParserRules := by decide
 
-theorem accepts_iff_partial (s : List Char) :
-    accepts s = true → ∃ (ts : List Token) (t : StartTree), lex s = .ok ts ∧ t.yield = ts ∧ t.wf = true := by
-  intro h
+/-- **accepted strings are sentences of zitiql/ZitiQl.g4 as it is now**: the token kinds of an
+    accepted string are derived from `start` in the parser rules read from the grammar file
+    (relation `G4.Derives`: sequences, alternatives, `?` `*` `+`, rule and token references taken
+    literally from the file), and the tokens themselves are matched by the lexer rules compiled from
+    the same file (`lex_tokens_match_rules`). -/
+theorem accepted_is_g4_sentence (s : List Char) (h : accepts s = true) :
+    ∃ ts : List Token, lex s = .ok ts ∧ Tokenises rules s ts ∧
+      G4.Sentence (G4.parserRules Generated.C10.g4Rules) (ts.map (·.kind)) := by
   unfold accepts at h
   cases hl : lex s with
   | error e => simp [hl] at h
@@ -151,7 +203,73 @@ theorem accepts_iff_partial (s : List Char) :
     simp only [hl] at h
     cases hp : parseStart ts with
     | none => simp [hp] at h
-    | some t => exact ⟨ts, t, rfl, (parseStart_sound ts t hp).1, (parseStart_sound ts t hp).2⟩
+    | some t =>
+      obtain ⟨hy, hwf⟩ := parseStart_sound ts t hp
+      refine ⟨ts, rfl, lexAuxWith_tokenises rules _ _ _ _ hl, ?_⟩
+      rw [parser_rules_are_expected, ← hy]
+      exact d_start t hwf
+
+/-- **the reference recogniser accepts exactly the sentences of zitiql/ZitiQl.g4 as it is now**: a
+    string is accepted iff it lexes (with the rule table compiled from the grammar file) to tokens
+    whose kinds are derived from `start` in the parser rules read from the grammar file.  Both
+    directions, all strings: `→` is `accepted_is_g4_sentence`; `←` turns a derivation in the
+    grammar's rules into a well-formed derivation tree (`sentence_has_tree`: every rule of the file,
+    read as a statement about token lists, yields the tree of its nonterminal) and then uses
+    `parse_complete`. -/
+theorem accepts_iff_g4 (s : List Char) :
+    accepts s = true ↔
+      ∃ ts : List Token, lex s = .ok ts ∧ G4.Sentence (G4.parserRules Generated.C10.g4Rules) (ts.map (·.kind)) := by
+  constructor
+  · intro h
+    obtain ⟨ts, hl, _, hs⟩ := accepted_is_g4_sentence s h
+    exact ⟨ts, hl, hs⟩
+  · rintro ⟨ts, hl, hs⟩
+    rw [parser_rules_are_expected] at hs
+    obtain ⟨t, hy, hwf⟩ := sentence_has_tree ts hs
+    unfold accepts
+    rw [hl, ← hy]
+    exact parseStart_complete t hwf
+
+/-- non-vacuity: a derivation exists, and the relation is not trivially true -/
+example : G4.Sentence expectedParserRules [.IDENTIFIER, .WS, .EQ, .WS, .NUMBER] :=
+  d_start ⟨[], .pred (.binary (.ident ⟨.IDENTIFIER, ['a']⟩) [⟨.WS, [' ']⟩] ⟨.EQ, ['=']⟩ [⟨.WS, [' ']⟩] ⟨.NUMBER, ['1']⟩) ⟨none, none, none⟩, []⟩
+    (by decide)
+
+/-- **every sentence is accepted** (completeness of the deterministic, greedy descent, and adequacy
+    of its fuel `2·|tokens| + 4`): the yield of every well-formed derivation of `start` — whatever
+    its shape: left- or right-nested `and`/`or` chains, `not` in the middle of a chain — is accepted
+    (the tree found is in general a different derivation of the same token list). -/
+theorem parse_complete (t : StartTree) (h : t.wf = true) : (parseStart t.yield).isSome = true :=
+  parseStart_complete t h
+
+/-- the full statement of the recogniser's correctness: accepted exactly the sentences -/
+def accepts_iff_fullStatement : Prop :=
+  ∀ s : List Char, accepts s = true ↔
+    ∃ (ts : List Token) (t : StartTree), lex s = .ok ts ∧ t.yield = ts ∧ t.wf = true
+
+/-- **the reference recogniser accepts exactly the sentences**: both directions, all strings -/
+theorem accepts_iff : accepts_iff_fullStatement := by
+  intro s
+  constructor
+  · intro h
+    unfold accepts at h
+    cases hl : lex s with
+    | error e => simp [hl] at h
+    | ok ts =>
+      simp only [hl] at h
+      cases hp : parseStart ts with
+      | none => simp [hp] at h
+      | some t => exact ⟨ts, t, rfl, (parseStart_sound ts t hp).1, (parseStart_sound ts t hp).2⟩
+  · rintro ⟨ts, t, hl, hy, hwf⟩
+    unfold accepts
+    rw [hl, ← hy]
+    exact parseStart_complete t hwf
+
+/-- non-vacuity of the completeness direction: a left-nested chain with a `not` in the middle, which
+    the recogniser re-associates -/
+example : (parseStart (StartTree.mk [] (.pred (.and (.not ⟨.NOT, ['n','o','t']⟩ [⟨.WS, [' ']⟩] (.symbol ⟨.IDENTIFIER, ['a']⟩))
+    [⟨.WS, [' ']⟩] ⟨.AND, ['a','n','d']⟩ [⟨.WS, [' ']⟩] (.symbol ⟨.IDENTIFIER, ['b']⟩)) ⟨none, none, none⟩) []).yield).isSome = true := by
+  decide
 
 example : accepts "a = 1 @".toList = false := by decide
 example : accepts "a = 1".toList = true := by decide
@@ -241,6 +359,84 @@ theorem bolt_symbols_no_panic (s : Option BoltSym) : (rowIsNil s).isPanic = fals
 /-- the case of the former finding: no cursor, reported as nil -/
 example : rowIsNil (some (.composite none)) = .ok true := rfl
 
+/-! ## 1f. sorting and paging in the store (boltz/store_query.go, query_scanners.go, query_sort.go) -/
+
+/-- **a sort clause and skip / limit never make the store panic**: for every list of sort fields
+    (unknown names, map elements, set symbols, symbols of a type no comparator exists for, more
+    than `SortMax` fields, duplicates, `id` anywhere), every optional skip / limit (negative, huge),
+    and every pair of rows whose values were written through the TypedBucket setters — null, of the
+    symbol's type or of any other type —: choosing the scanner, building the row comparator (or
+    refusing the sort field with an error), computing the paging window and comparing the two rows
+    all end without panic. -/
+theorem bolt_sort_no_panic (fields : List (SortSym × Bool)) (idView : List (Bool × Bool)) (skip limit : Option Int) :
+    (newScanner idView).isPanic = false ∧ (setPaging skip limit).isPanic = false ∧
+    (newRowComparator fields).isPanic = false ∧
+    ∀ (l : List (CmpKind × Bool × Stored × Stored × Bool × Bool)),
+      (∀ x ∈ l, x.2.2.1.wellFormed = true ∧ x.2.2.2.1.wellFormed = true) → (rowCompare l).isPanic = false :=
+  ⟨newScanner_np idView, setPaging_np skip limit, newRowComparator_np fields, rowCompare_np⟩
+
+/-- the hypothesis on stored values is needed, and only for string symbols: `FieldToString`
+    dereferences the result of `FieldToBool` / `FieldToInt64` / `FieldToFloat64` unchecked, which is
+    nil for a payload of the wrong length (no setter writes one) -/
+example : (rowCompare [(.string, true, ⟨.bool, 0, true⟩, ⟨.string, 1, true⟩, false, false)]).isPanic = true := by decide
+example : (rowCompare [(.string, true, ⟨.int64, 8, true⟩, ⟨.nil, 0, true⟩, false, false),
+    (.bool, false, ⟨.string, 3, true⟩, ⟨.bool, 1, true⟩, true, false)]).isPanic = false := by decide
+/-- null on either side, both sides, neither side -/
+example : compareNillable none (some ()) false false true = .ok (-1) ∧ compareNillable (some ()) none false false true = .ok 1 ∧
+    compareNillable none none false false false = .ok 0 ∧ compareNillable (some ()) (some ()) false true false = .ok (-1) :=
+  ⟨rfl, rfl, rfl, rfl⟩
+
+/-! ## 1g. objectz: the in-memory object store (objectz/object_store.go, object_cursor.go, object_store_sort.go) -/
+
+/-- the full statement for objectz: a scan never panics, whatever the store's iterator function
+    returns — nil ("nothing to iterate") included.  `nilTestFirst` is the order of the nil test and
+    the first use of the iterator in `memSortingScanner.Scan`; the code's order is regenerated as
+    `Generated.C10.objScanNilTestFirst`. -/
+def objectz_scan_fullStatement (nilTestFirst : Bool) : Prop :=
+  ∀ (skip limit : Option Int) (fields : List (Option ObjSymClass × Bool)) (cursor : Option Unit),
+    (objScanPrologue nilTestFirst skip limit fields cursor).isPanic = false
+
+/-- the order the code has (since fix bbcb51c): the iterator is compared with nil before its first use -/
+theorem objectz_scan_order_is_repaired : Generated.C10.objScanNilTestFirst = true := by decide
+
+/-- **objectz never panics while setting up and ordering a scan — the full statement, for the code as
+    it is**: for every skip / limit, every list of sort fields (registered symbols of the five
+    classes or unknown names, any number, duplicates) and EVERY iterator the store's iterator
+    function may return — nil, empty or not —, `memSortingScanner.Scan` reaches its loop (or returns
+    "nothing") without panic, an unknown sort field being an error; comparing two objects on a field
+    never panics whichever of the two values is a nil pointer; `ObjectCursor.eval` does not panic on
+    a registered name (the only names a query typed against the same store contains). -/
+theorem objectz_scan_no_panic :
+    objectz_scan_fullStatement Generated.C10.objScanNilTestFirst ∧
+    (∀ (s1 s2 : Option Unit) (lt gt forward : Bool), (compareNillable s1 s2 lt gt forward).isPanic = false) ∧
+    (objEval true).isPanic = false := by
+  refine ⟨?_, compareNillable_np, rfl⟩
+  rw [objectz_scan_order_is_repaired]
+  exact fun skip limit fields cursor => objScanPrologue_np true skip limit fields cursor (.inl rfl)
+
+/-- the model follows the code in either order: the full statement holds exactly for "nil test first" -/
+theorem objectz_scan_follows_code :
+    (Generated.C10.objScanNilTestFirst = true → objectz_scan_fullStatement Generated.C10.objScanNilTestFirst) ∧
+    (Generated.C10.objScanNilTestFirst = false → ¬ objectz_scan_fullStatement Generated.C10.objScanNilTestFirst) := by
+  constructor
+  · intro h; rw [h]
+    exact fun skip limit fields cursor => objScanPrologue_np true skip limit fields cursor (.inl rfl)
+  · intro h; rw [h]
+    intro hf
+    have := hf none none [] none
+    revert this
+    decide
+
+/-- the defect repaired by bbcb51c (replay `O noiter true`): with `cursor.Current()` BEFORE the nil
+    test a nil iterator panics, whatever the query -/
+example : (objScanPrologue false none none [] none).isPanic = true := by decide
+example : (objScanPrologue true none none [] none).isPanic = false := by decide
+
+/-- and an unregistered name reaching `ObjectCursor.eval` (a query typed against another symbol
+    table) is a call on a nil interface -/
+example : (objEval false).isPanic = true := rfl
+example : (objScanPrologue false (some (-5)) (some 9223372036854775807) [(some .string, true), (none, false)] (some ())).isPanic = false := by decide
+
 /-! ## 1d. the tree-set cursor (ast/cursors.go, shared with C14) -/
 
 /-- **any tree, also the empty one, any number of extra Next calls**: the cursor script yields
@@ -263,18 +459,35 @@ end StorageModel.Properties.C10
 #print axioms StorageModel.Properties.C10.sites_are_expected
 #print axioms StorageModel.Properties.C10.wiring_is_expected
 #print axioms StorageModel.Properties.C10.callbacks_are_expected
+#print axioms StorageModel.Properties.C10.pool_wiring_is_expected
 #print axioms StorageModel.Properties.C10.listener_no_panic
 #print axioms StorageModel.Properties.C10.listener_builds_query
 #print axioms StorageModel.Properties.C10.listener_no_panic_on_trees
 #print axioms StorageModel.Properties.C10.parse_sound
 #print axioms StorageModel.Properties.C10.accepts_sound
-#print axioms StorageModel.Properties.C10.accepts_iff_partial
+#print axioms StorageModel.Properties.C10.parse_complete
+#print axioms StorageModel.Properties.C10.accepts_iff
 #print axioms StorageModel.Properties.C10.transform_no_panic
 #print axioms StorageModel.Properties.C10.eval_no_panic
 #print axioms StorageModel.Properties.C10.pipeline_total
 #print axioms StorageModel.Properties.C10.bolt_symbols_no_panic
+#print axioms StorageModel.Properties.C10.bolt_sort_no_panic
+#print axioms StorageModel.Properties.C10.objectz_scan_order_is_repaired
+#print axioms StorageModel.Properties.C10.objectz_scan_no_panic
+#print axioms StorageModel.Properties.C10.objectz_scan_follows_code
 #print axioms StorageModel.Properties.C10.tree_cursor_enumerates
 #print axioms StorageModel.Properties.C10.tree_cursor_no_panic
+#print axioms StorageModel.Properties.C10.lexer_table_is_good
+#print axioms StorageModel.Properties.C10.lexer_atn_matches_grammar
+#print axioms StorageModel.Properties.C10.parser_atn_matches_grammar
+#print axioms StorageModel.Properties.C10.generated_code_is_pinned
+#print axioms StorageModel.Properties.C10.parser_rules_are_expected
+#print axioms StorageModel.Properties.C10.accepted_is_g4_sentence
+#print axioms StorageModel.Properties.C10.accepts_iff_g4
+#print axioms StorageModel.Properties.C10.lex_lossless_any
+#print axioms StorageModel.Properties.C10.lex_tokens_match_rules_any
+#print axioms StorageModel.Properties.C10.lex_error_is_real_any
+#print axioms StorageModel.Properties.C10.lex_rejects_unrecognised_any
 #print axioms StorageModel.Properties.C10.lex_lossless
 #print axioms StorageModel.Properties.C10.lex_tokens_match_rules
 #print axioms StorageModel.Properties.C10.lex_error_is_real
